@@ -33,6 +33,10 @@ type rcfg struct {
 	restartDly int
 	postInside []acc // sent by L1 while paused / after restart
 	lateAt     int   // cycle at which postInside is injected (can be during the drain)
+	ctlStall   bool  // the command processor may stall taking acknowledgements off the control wire
+	lateOutside []acc // remote requests that arrive late (e.g. while a drain acknowledgement is stuck)
+	lateOutAt  int
+	secondDrainAfter int // > 0: a second DrainReq this many cycles after the first RestartRsp was taken
 }
 
 const (
@@ -231,10 +235,11 @@ func rdmaBody(c rcfg) explore.Body {
 		world.OnSend(ctl, func(m sim.Msg) {
 			switch m.(type) {
 			case *rdma.DrainRsp:
-				if drained {
+				if drained && !restarted {
 					fail("drain/acknowledged-twice", "second DrainRsp")
 				}
 				drained = true
+				restarted = false
 				fmt.Fprintf(&trace, "DRAINED(%d,%d);", in.inFlight(), out.inFlight())
 				if n := in.inFlight() + out.inFlight(); n != 0 {
 					fail("drain/acknowledged-with-transactions-in-flight", "DrainRsp sent with %d inside->remote and %d remote->local transactions in flight", in.inFlight(), out.inFlight())
@@ -307,19 +312,42 @@ func rdmaBody(c rcfg) explore.Body {
 		l2Sink := &world.Sink{W: w, Port: dIn, Tag: "l2", StallAlphabet: []int{1, 4}, Handle: answer(l2, dIn, out)}
 		// command processor
 		ctlF := &world.Feeder{W: w, Port: ctl, Tag: "ctl"}
-		ctlSink := &world.Sink{W: w, Port: ctl, Tag: "ctl", NoChoice: true}
+		ctlSink := &world.Sink{W: w, Port: ctl, Tag: "ctl", NoChoice: !c.ctlStall, StallAlphabet: []int{2, 8}}
+		drains := 0
+		secondAt := -1
 		ctlSink.Handle = func(m sim.Msg) {
 			if _, ok := m.(*rdma.DrainRsp); ok {
 				ctlF.Add(rdma.RestartReqBuilder{}.WithSrc(cp).WithDst(ctl.AsRemote()).Build(), false)
 				ctlF.Q[len(ctlF.Q)-1].Ready += c.restartDly
 			}
+			if _, ok := m.(*rdma.RestartRsp); ok && c.secondDrainAfter > 0 && drains == 1 {
+				secondAt = w.Cycle() + c.secondDrainAfter
+			}
 		}
-		drainSent, lateSent := false, false
+		drainSent, lateSent, lateOutSent := false, false, false
 		w.Step = func() bool {
 			pending := false
+			if c.secondDrainAfter > 0 && drains == 1 {
+				if secondAt >= 0 && w.Cycle() >= secondAt {
+					drains = 2
+					ctlF.Add(rdma.DrainReqBuilder{}.WithSrc(cp).WithDst(ctl.AsRemote()).Build(), false)
+					ctlF.Q[len(ctlF.Q)-1].Ready = w.Cycle()
+				}
+				pending = true
+			}
+			if len(c.lateOutside) > 0 && !lateOutSent {
+				if w.Cycle() >= c.lateOutAt {
+					lateOutSent = true
+					for i, a := range c.lateOutside {
+						rq.Add(mkAcc(a, 12+i, remotes[1+i%2], dOut.AsRemote()), true)
+					}
+				}
+				pending = true
+			}
 			if c.drainAt > 0 && !drainSent {
 				if w.Cycle() >= c.drainAt {
 					drainSent = true
+					drains = 1
 					ctlF.Add(rdma.DrainReqBuilder{}.WithSrc(cp).WithDst(ctl.AsRemote()).Build(), false)
 					ctlF.Q[len(ctlF.Q)-1].Ready = w.Cycle()
 				}
@@ -371,7 +399,7 @@ func rdmaBody(c rcfg) explore.Body {
 				}
 			}
 		}
-		if len(in.items) != len(c.inside)+len(c.postInside) || len(out.items) != len(c.outside) {
+		if len(in.items) != len(c.inside)+len(c.postInside) || len(out.items) != len(c.outside)+len(c.lateOutside) {
 			return explore.Viol("request-not-accepted", "accepted %d/%d inside, %d/%d outside", len(in.items), len(c.inside)+len(c.postInside), len(out.items), len(c.outside))
 		}
 		if c.drainAt > 0 && !(drained && restarted) {
@@ -414,6 +442,17 @@ func rdmaScenarios(r *harness.Run) []harness.Scenario {
 			add(fmt.Sprintf("buf2/in0+out0/drain@%d/late@%d", da, late), rcfg{buf: 2, inside: ins[0], outside: outs[0], drainAt: da, restartDly: 2, postInside: post, lateAt: late}, bound-1)
 		}
 		add(fmt.Sprintf("buf1/in1+out1/drain@%d/late@%d", da, da), rcfg{buf: 1, inside: ins[1], outside: outs[1], drainAt: da, restartDly: 0, postInside: post, lateAt: da}, bound-1)
+	}
+	// control-port back-pressure: acknowledgements may be stuck in the 1-entry control port while remote traffic goes on,
+	// and a second drain follows the first restart
+	lateOut := []acc{{false, 0x140, 4, false}, {true, 0x188, 8, false}}
+	for _, da := range []int{2, 4, 7} {
+		for _, gap := range []int{1, 3} {
+			for _, lo := range []int{da + 6, da + 10, da + 14} {
+				add(fmt.Sprintf("buf1/ctl-backpressure/drain@%d/second+%d/late-remote@%d", da, gap, lo),
+					rcfg{buf: 1, inside: ins[1][:1], outside: outs[0][:1], drainAt: da, restartDly: 0, ctlStall: true, lateOutside: lateOut, lateOutAt: lo, secondDrainAfter: gap}, bound-1)
+			}
+		}
 	}
 	return scs
 }
